@@ -220,7 +220,19 @@ func c17Run(rc *RunCtx, params any) {
 					}
 				}
 				var data []byte
-				if p.Garbage || len(seen) == 0 {
+				if p.Garbage && d.B%2 == 1 {
+					// an ACK that acknowledges nothing: cleartext, naming epoch 0 record numbers the
+					// endpoint never used. Not new data, so no reason to fall back to the initial interval
+					var body []byte
+					for q := uint64(0); q < 3; q++ {
+						body = append(append(body, u64(0)...), u64(0xfff000+uint64(d.B)*4+q)...)
+					}
+					staleSeq++
+					data = append([]byte{26, 0xfe, 0xfd, 0, 0}, u64(0x100000 + staleSeq)[2:]...)
+					data = append(data, 0, byte(len(body)+2), 0, byte(len(body)))
+					data = append(data, body...)
+					s.Fault("stale-ack-for-nothing")
+				} else if p.Garbage || len(seen) == 0 {
 					data = []byte{22, 0xfe, 0xfd, 0, 0, 0, 0, 0, 0, 0, byte(d.B), 0, 3, 9, 9, 9}
 				} else {
 					data = append([]byte(nil), seen[int(d.B)%len(seen)]...)
